@@ -144,7 +144,7 @@ def build(row: dict, seq, nm):
             f[0, 1 if i == 0 else 0, 0] = 1.0
             fs.append(f)
         common["initial_state"] = MPS(fs, eigenstates=eig, num_gpus_to_use=0)
-    cfg = MPSConfig(num_gpus_to_use=0, solver=Solver.DMRG if row["solver"] == "dmrg" else Solver.TDVP, **common)
+    cfg = MPSConfig(num_gpus_to_use=0, solver=(row["solver"] if (row["n"] + len(row["lind"]) + len(row["stoch"])) % 2 == 0 and row["solver"] in ("dmrg", "tdvp") else (Solver.DMRG if row["solver"] == "dmrg" else Solver.TDVP)), **common)
     return MPSBackend(seq, config=cfg)
 
 
